@@ -37,11 +37,15 @@ continuation, with queries anywhere, returns the same (`reset_is_fresh`), and `d
 key (`processKey_dirty`), so the exception concerns only a reset directly after an API learn/unlearn.
 The estimator clock is a constructor argument (`LaxUserFreqEstimate::new`), so "same clock" is a
 legitimate fresh editor; the C API instead restarts the clock from the newest stored time
-(`max_from`).  `clock_dirty_invisible` closes that gap: the clock reaches nothing but the time argument of
-`update_phrase`/`estimate`, and `dirty` nothing but the flush — stated as a simulation for every
-environment whose dictionary observations are insensitive to those (hypotheses `DictSim`).
+(`max_from`).
 Before the fix the statement was FALSE (`reset_is_fresh_refuted_before_fix`, DESIGN F25);
-`f25_history_now_agrees` replays the former counter-example on the repaired model.
+`f25_history_now_agrees` replays the former counter-example on the repaired model.  At the C level
+`chewing_Reset` additionally has to drop the four iterator slots (second fix; `ctx_reset_eq_fresh`,
+`ctx_reset_is_fresh` over ALL call lists incl. slot reads without Enumerate, `ctx_reset_refuted_before_fix`).
+NOT proved: that the estimator clock and the pending flush level are unobservable (a new C context
+restarts the clock from the newest stored time): the theorems take the clock as a constructor argument
+and carry the flush level explicitly; the C harness compares reset contexts with new contexts whose clock
+differs, the Rust harness masks the flush level until the first key.
 -/
 namespace Chewing.C17
 open Chewing
@@ -368,6 +372,25 @@ theorem fresh_by_constructors (cfg : Config D L) (l0 : L) :
   have : (St.entering == St.enteringSyllable) = false := by decide
   by_cases h : (LangMode.chinese != cfg.options.languageMode) = true <;> simp [h, this]
 
+/-! ### the C context: `chewing_Reset` -/
+
+/-- **a reset context is a new context**: `chewing_Reset` yields the context `chewing_new2` gives for the
+    same configuration (editor as in `clear_eq_fresh`, all iterator slots empty) -/
+theorem ctx_reset_eq_fresh (c : Ctx D L) :
+    c.reset env = { Ctx.fresh (c.ed.config env) with ed := (Editor.fresh (c.ed.config env)).withDirty c.ed.shared.dirty } := by
+  simp only [Ctx.reset, Ctx.fresh, clear_eq_fresh]
+
+/-- … hence every continuation of C calls — operations, plain getters, enumerate-style calls, and slot reads
+    WITHOUT a preceding Enumerate — shows the client the same on both -/
+theorem ctx_reset_is_fresh (c : Ctx D L) (l : List (CCall L)) :
+    (c.reset env).trace env l =
+      ({ Ctx.fresh (c.ed.config env) with ed := (Editor.fresh (c.ed.config env)).withDirty c.ed.shared.dirty } : Ctx D L).trace env l := by
+  rw [ctx_reset_eq_fresh]
+
+/-- the reset as it was coded before kept the slots; for clients that follow the documented protocol (a
+    slot is read only after its own Enumerate) that was invisible on the editor part: the editors agree -/
+theorem ctx_reset_before_fix_editor (c : Ctx D L) : (c.resetBeforeFix env).ed = (c.reset env).ed := rfl
+
 /-! ### F25: the statement was false before the fix -/
 
 /-- a minimal environment in which syllables can be typed and a candidate list opened: key `h`
@@ -416,6 +439,16 @@ theorem f25_history_now_agrees :
       ((e.clear f25Env).run f25Env f25Cont).map (·.query f25Env .cursor) = .ok (.ok (.nat 0)) ∧
       ((Editor.fresh (e.config f25Env)).run f25Env f25Cont).map (·.query f25Env .cursor) = .ok (.ok (.nat 0)) := by
   refine ⟨_, rfl, ?_, ?_⟩ <;> decide
+
+/-- **the iterator half of the reset defect (before the second fix)**: open a candidate list,
+    `chewing_cand_Enumerate`, `chewing_Reset`, `chewing_cand_String`: the old reset hands out the first
+    candidate of the list that no longer exists, a new context (and the repaired reset) nothing -/
+theorem ctx_reset_refuted_before_fix :
+    ∃ c : Ctx Unit Nat, (Ctx.trace f25Env { ed := f25Start } [.op kH, .op k4, .op kDown, .q .candEnumerate]).map (·.1) = .ok c ∧
+      ((c.resetBeforeFix f25Env).cquery f25Env .candString).2 = .text (some [28204]) ∧
+      ((c.reset f25Env).cquery f25Env .candString).2 = .text none ∧
+      ((Ctx.fresh (c.ed.config f25Env)).cquery f25Env .candString).2 = .text none := by
+  refine ⟨_, rfl, ?_, ?_, ?_⟩ <;> decide
 
 /-! ## Non-vacuity -/
 
